@@ -42,30 +42,31 @@ func c07Frame(c *mon.Config, r *gen.Rand, idx int) pbCase {
 }
 
 var c07HSizes = []uint64{0, 1, 31, 33, 1 << 31, 1 << 32, 1 << 63, ^uint64(0)}
-var c07BSizes = []uint64{0, 1, 5, 1 << 20, 1 << 31, 1 << 36, 1 << 40, 1 << 48, 1 << 62, 1<<63 - 1, 1 << 63, ^uint64(0)}
+var c07BSizes = []uint64{0, 1, 5, 1 << 20, 1<<20 + 1, 1 << 21, 1<<24 + 1, 1 << 30, 1 << 31, 1 << 36, 1 << 40, 1 << 48, 1 << 62, 1<<63 - 1, 1 << 63, ^uint64(0)}
 
 func init() {
 	register(&mon.Prop{
 		ID:    "C07",
 		Level: "fault_enumeration",
 		Rule: "for every frame of a corpus (bodies 0,1,2,31,32,33,100,600[,5000] x {legacy, BytesValue, versioned BytesValue} x 3 versions): EVERY cut point k in [0,len) through 3 chunkings, " +
-			"EVERY read-error point k (error alone / with the last data), EVERY writer quota k (partial write / failure on the next call / failure reported on the write that reaches the quota); " +
+			"EVERY read-error point k (error alone / with the last data), EVERY writer quota k (partial write / failure on the next call / failure reported on the write that reaches the quota / a transient failure after which the writer accepts again); frames with bodies around 1 MiB (2^20-1, 2^20, 2^20+1, 1.5e6) cut at boundary and sampled points; " +
 			"corrupt headers: header-size in {0,1,31,33,2^31,2^32,2^63,2^64-1,random} x body-size in {0,1,5,rem+1,2^20,2^31,2^36,2^40,2^48,2^62,2^63-1,2^63,2^64-1,random} x trailing bytes, " +
 			"bit-flipped valid frames, random byte strings of 0..100 bytes. Non-trivial+distinct = hash of (fault kind, frame, k) with 0<k<len strictly inside a frame, or hash of the corrupt input.",
 		Assumptions: []string{"a reader/writer wrapper at the io boundary is the observation point; the count of bytes it delivered/accepted is ground truth",
-			"for declared body sizes above 2^24 only 'no success, normal return, n = bytes consumed' is asserted, not which error",
+			"for declared body sizes above 2^31 only 'no success, normal return, n = bytes consumed' is asserted, not which error",
 			"cause = errors.Cause chain or errors.Is"},
 		Flavours: releaseOnly,
 		Required: []string{"cut/k=0", "cut/in-header", "cut/k=32", "cut/in-body", "readerr/alone", "readerr/with-data", "writefault/in-header", "writefault/at-32", "writefault/in-body",
-			"writefault/eager", "corrupt/hsize!=32", "corrupt/bsize>=2^63", "corrupt/bsize-huge", "corrupt/bsize-beyond-stream", "corrupt/complete-frame-ok", "random/short", "random/bitflip"},
+			"writefault/eager", "writefault/transient", "cut/big-frame>1MiB", "corrupt/hsize!=32", "corrupt/bsize>=2^63", "corrupt/bsize-huge", "corrupt/bsize-beyond-stream", "corrupt/complete-frame-ok", "random/short", "random/bitflip"},
 		Families: func(c *mon.Config) []mon.Family {
 			nc := c07Corpus(c)
 			return []mon.Family{
 				{Name: "cuts", N: nc, Run: c07Cuts},
 				{Name: "read-errors", N: nc, Run: c07ReadErrors},
 				{Name: "write-faults", N: nc, Run: c07WriteFaults},
+				{Name: "big-frames", N: 4 * len(c07Kinds), Run: c07BigFrames},
 				{Name: "corrupt-headers", N: (len(c07HSizes) + 2) * (len(c07BSizes) + 3), Run: c07CorruptHeaders},
-				{Name: "random-bytes", N: c.Pick(20000, 1500000), Run: c07RandomBytes},
+				{Name: "random-bytes", N: c.Pick(100000, 8000000), Run: c07RandomBytes},
 			}
 		},
 	})
@@ -240,9 +241,10 @@ func c07WriteFaults(w *mon.W, idx int) {
 	msg := c.msg()
 	var ev int64
 	for k := 0; k < len(frame); k++ {
-		for _, eager := range []bool{false, true} {
-			qw := &quotaWriter{quota: k, eager: eager, err: errInjectedWrite}
-			w.Op, w.A, w.B = "Marshal(write-fault)", int64(k), int64(b2i(eager))
+		for style := 0; style < 3; style++ {
+			eager, transient := style == 1, style == 2
+			qw := &quotaWriter{quota: k, eager: eager, transient: transient, err: errInjectedWrite}
+			w.Op, w.A, w.B = "Marshal(write-fault)", int64(k), int64(style)
 			var n int64
 			var err error
 			pan := ""
@@ -256,12 +258,15 @@ func c07WriteFaults(w *mon.W, idx int) {
 			}()
 			ev++
 			if pan != "" || int(n) != k || err != errInjectedWrite && !pbIs(err, errInjectedWrite) || !bytes.Equal(qw.buf.Bytes(), frame[:k]) {
-				w.Fail("writefault/outcome", mon.D{"kind": pbKindNames[c.Kind], "frame_len": len(frame), "writer_quota_k": k, "eager": eager,
+				w.Fail("writefault/outcome", mon.D{"kind": pbKindNames[c.Kind], "frame_len": len(frame), "writer_quota_k": k, "eager": eager, "transient_fault_then_accepting": transient, "writer_calls": qw.writes,
 					"returned_n": n, "err": errStr(err), "panic": pan, "bytes_in_writer": qw.buf.Len(), "prefix_ok": bytes.Equal(qw.buf.Bytes(), frame[:min(len(frame), qw.buf.Len())])})
 				return
 			}
 			if eager {
 				w.Bucket("writefault/eager")
+			}
+			if transient {
+				w.Bucket("writefault/transient")
 			}
 		}
 		switch {
@@ -312,7 +317,7 @@ func c07Arbitrary(w *mon.W, input []byte, kind int, mode int, class string) bool
 	switch {
 	case bsize >= 1<<63:
 		sizeClass = "bsize>=2^63"
-	case bsize > 1<<24:
+	case bsize > 1<<31:
 		sizeClass = "bsize-huge"
 	case bsize > rem:
 		sizeClass = "bsize-beyond-stream"
@@ -349,8 +354,8 @@ func c07Arbitrary(w *mon.W, input []byte, kind int, mode int, class string) bool
 		}
 		if !complete {
 			w.Bucket("corrupt/" + sizeClass)
-			if bsize <= 1<<24 {
-				// a strict prefix of a valid frame
+			if bsize <= 1<<31 {
+				// a strict prefix of a valid frame (bodies up to 2 GiB certainly exist)
 				okc := pbIs(o.err, io.ErrUnexpectedEOF) || (rem == 0 && pbIs(o.err, io.EOF))
 				if !okc || o.cons != len(input) {
 					w.Fail("arbitrary/prefix-semantics", d())
@@ -449,4 +454,56 @@ func c07RandomBytes(w *mon.W, idx int) {
 		w.Distinct(gen.Hash64(5, gen.HashBytes(input)))
 	}
 	w.Sample(func() interface{} { return mon.D{"fault": class, "input_hex": fmt.Sprintf("%x", input)} })
+}
+
+// c07BigFrames cuts frames whose bodies are around and above 1 MiB (allocation strategies change
+// with size) at boundary and sampled points.
+func c07BigFrames(w *mon.W, idx int) {
+	r := w.Rng
+	size := []int{1<<20 - 1, 1 << 20, 1<<20 + 1, 1500000}[idx%4]
+	c := pbCase{Kind: c07Kinds[idx/4], Payload: pbPayload(r, size), Ver: "1.0.0"}
+	frame := c.frame()
+	n := len(frame)
+	cuts := []int{0, 1, 31, 32, 33, 32 + 511, 32 + 512, 32 + 513, 32 + 1<<16, 32 + 1<<20 - 1, 32 + 1<<20, n - 2, n - 1}
+	for k := 0; k < 12; k++ {
+		cuts = append(cuts, 33+r.Intn(n-34))
+	}
+	for _, k := range cuts {
+		if k < 0 || k >= n {
+			continue
+		}
+		for _, mode := range []int{chWhole, chEOFWithData} {
+			w.Op, w.A, w.B = "Unmarshal(cut,big)", int64(k), int64(mode)
+			cr := newChunkReader(frame[:k], mode, r)
+			o := c07Unmarshal(cr, c.empty())
+			w.Eval(1)
+			w.Tick()
+			okc := pbIs(o.err, io.ErrUnexpectedEOF)
+			if k == 0 {
+				okc = pbIs(o.err, io.EOF)
+			} else if k == 32 {
+				okc = okc || pbIs(o.err, io.EOF)
+			}
+			if o.pan != "" || o.err == nil || int(o.n) != k || o.cons != k || !okc {
+				w.Fail("cut/big-frame", mon.D{"kind": pbKindNames[c.Kind], "body_len": n - 32, "cut_k": k, "chunking": chNames[mode], "returned_n": o.n, "err": errStr(o.err), "panic": o.pan, "reader_delivered": o.cons})
+				return
+			}
+			if k > 32 {
+				w.Distinct(gen.Hash64(6, uint64(idx), uint64(k)))
+				w.Bucket("cut/big-frame>1MiB")
+			}
+		}
+	}
+	// and the complete frame still decodes
+	cr := newChunkReader(frame, chWhole, r)
+	into := c.empty()
+	o := c07Unmarshal(cr, into)
+	w.Eval(1)
+	if o.err != nil || int(o.n) != n || !c.sameMsg(into) {
+		w.Fail("big-frame/complete-frame-not-decoded", mon.D{"body_len": n - 32, "returned_n": o.n, "err": errStr(o.err)})
+		return
+	}
+	w.Sample(func() interface{} {
+		return mon.D{"fault": "truncation of a frame with a body around 1 MiB", "body_len": n - 32, "cuts": len(cuts)}
+	})
 }
